@@ -8,6 +8,7 @@ matched against known_findings.json.
 """
 from __future__ import annotations
 
+import os
 import re
 
 from . import world as W
@@ -54,6 +55,15 @@ def escaped_violation(hist, prop_default=None):
     esc = hist.get("escaped")
     if not esc:
         return None
+    if esc["type"] == "WorldTimeout":
+        # the run did not terminate: a liveness violation of whatever property is being checked
+        where = "?"
+        for fn, name, ln in reversed(esc["frames"]):
+            if fn.startswith("behave/") or "/behave/" in fn:
+                where = "%s:%s" % (fn.split("/")[-1], name)
+                break
+        return V(os.environ.get("VERIF_CURRENT_PROP") or prop_default or "HARNESS", "hang",
+                 "run-did-not-terminate@%s" % where, msg=esc["msg"], frames=esc["frames"][-6:])
     inner = None
     for fn, name, ln in reversed(esc["frames"]):
         if fn.startswith("behave/") or "/behave/" in fn:
